@@ -160,6 +160,19 @@ P('C09', ['loadDumpFile', 'sendAppendEntries', 'msg.append_entries', 'serializer
 # ---------------------------------------------------------------------------------------------------------- lemmas
 
 
+def _only_reached_from(mod, meth, allowed, depth=0):
+    """a private helper (e.g. freshly extracted by a refactoring) that is called only from functions under contract - directly or through
+    other such helpers - is covered by those contracts: the units execute uncontracted same-class helpers in place"""
+    from contracts.so_common import self_calls
+    ci = mod.classes['SyncObj']
+    if not meth.startswith('__') or meth.endswith('__') or depth > 4:
+        return False
+    callers = [m for m, fn in ci.methods.items() if meth in self_calls(fn) and m != meth]
+    if not callers:
+        return False
+    return all(c in allowed or _only_reached_from(mod, c, allowed, depth + 1) for c in callers)
+
+
 def _lemma_frame(prop, attr_sets):
     """frame obligations: the writers of the given fields, computed from the AST of class SyncObj, are exactly the
     functions under contract for them"""
@@ -171,7 +184,7 @@ def _lemma_frame(prop, attr_sets):
         out = []
         for attr, allowed in attr_sets.items():
             w = writers_of(mod, 'SyncObj', attr)
-            extra = [x for x in w if x not in allowed]
+            extra = [x for x in w if x not in allowed and not _only_reached_from(mod, x, allowed)]
             # a writer outside the contracted set means the code was restructured in a way the contracts do not cover:
             # that is *undecided* (exit 2), not a violation - the semantic clauses of the units decide violations
             out.append(dict(id='%s:frame.writers-of-%s-are-under-contract' % (prop, attr.strip('_')), unit='lemma.frame', path='ast',
@@ -198,7 +211,7 @@ def _lemma_callers(prop, table):
         out = []
         for helper, allowed in table.items():
             callers = sorted(m for m, fn in ci.methods.items() if helper in self_calls(fn))
-            extra = [c for c in callers if c not in allowed]
+            extra = [c for c in callers if c not in allowed and not _only_reached_from(mod, c, allowed)]
             out.append(dict(id='%s:frame.callers-of-%s-are-under-contract' % (prop, helper.strip('_')), unit='lemma.frame', path='ast',
                             status='discharged' if not extra else 'unknown', solver='ast-frame-analysis', secs=0.0,
                             model={'callers': callers, 'uncontracted': extra}, info='callers=%s' % callers, line=None))
